@@ -149,7 +149,7 @@ def build(T):
             if kind == 'ldc':
                 return False
             if kind == 'ldcl':
-                return f['W'] == 1
+                return lor(f['W'] == 1, land(f['P'] == 0, thumb))       # unindexed literal form only in ARM state
             return False
         return up
     for base, pat, extra, kind in COP:
